@@ -198,6 +198,11 @@ def fixed_requests():
     # same call text, different constexpr bodies (a cache keyed by the call alone would confuse them)
     for body in ["return a * 2", "return a * 3 + 1", "return HASH('x') + a"]:
         out.append({"": HDR + f"@constexpr\ndef k(a):\n    {body}\ndb.Setting = k(2)\n"})
+    # constexpr results that are containers (the value object may be remembered by the process): lists of several
+    # lengths, looped over and indexed with a run-time value
+    for n in (3, 5, 7, 8, 9):
+        out.append({"": HDR + f"@constexpr\ndef table(n):\n    return [i * i + 1 for i in range(n)]\nt = table({n})\nfor v in t:\n    d1.Setting = v\n"
+                               f"db.Setting = t[min(max(d0.Setting, 0), {n - 1})]\n"})
     for bad in ["db.Setting = (\n", "db.Setting = undefined_name\n", "class A:\n    pass\n", "def f(a):\n    f(a)\nf(1)\n", "x = d0\nx = d1\n"]:
         out.append({"": HDR + bad})
     return out
@@ -238,7 +243,11 @@ class History(RuleBasedStateMachine):
     @rule(target=reqs, mc=c13.cases())
     def pick_modules(self, mc):
         # programs split over 1-3 library modules with module-level state
-        return c13.render(mc)[0]
+        A = c13.render(mc)[0]
+        if mc["env_seeds"][0] % 2:
+            # the mod sends every library it knows with each request: one the main file does not import
+            A["spare_lib"] = HDR + "def spare(a):\n    d5.Setting = a\n"
+        return A
 
     def _compile(self, srcs, bits, mode):
         vec = gopt.vector_from_bits(bits)
